@@ -451,14 +451,13 @@ pub fn detect_endianness_from_magic(magic: u32) -> Option<Endianness> {
 
 /// Write endianness magic number to identify format
 pub fn write_endianness_magic(endianness: Endianness) -> u32 {
-    match endianness {
-        Endianness::Little | Endianness::Native if Endianness::native() == Endianness::Little => {
-            ENDIAN_MAGIC_LITTLE
-        }
-        Endianness::Big | Endianness::Native if Endianness::native() == Endianness::Big => {
-            ENDIAN_MAGIC_BIG
-        }
-        _ => ENDIAN_MAGIC_LITTLE, // Default to little endian
+    let resolved = match endianness {
+        Endianness::Native => Endianness::native(),
+        other => other,
+    };
+    match resolved {
+        Endianness::Big => ENDIAN_MAGIC_BIG,
+        _ => ENDIAN_MAGIC_LITTLE,
     }
 }
 
